@@ -382,15 +382,25 @@ class AllocCheck:
         return out[:5]
 
     def find_counterexample(self, ob, seed):
+        """bounded native search for a failing input of the function the obligation belongs to (cached per function:
+        all obligations of one function share the search)"""
         fn = ob.name.split("#")[0].split(".")[-1]
         focus = fn if fn in ("allocate", "free", "grow") else None
-        ev, d, viol, _ = bounded_states("thorough", seed, focus, want_first=True)
+        cache = self.__dict__.setdefault("_cex_cache", {})
+        if focus in cache:
+            return cache[focus]
+        cex = None
+        ev, d, viol, _ = bounded_states("quick", seed, focus, want_first=True)
+        if not viol:
+            ev, d, viol, _ = bounded_states("thorough", seed, focus, want_first=True)
         if viol:
-            return viol[0]
-        ev2, d2, v2 = random_histories("quick", seed, n_hist=200, steps=150)
-        if v2:
-            return v2[0]
-        return None
+            cex = viol[0]
+        else:
+            ev2, d2, v2 = random_histories("quick", seed, n_hist=200, steps=150)
+            if v2:
+                cex = v2[0]
+        cache[focus] = cex
+        return cex
 
     def reproduce_known(self, k):
         case = k.get("repro")
